@@ -245,9 +245,17 @@ def run(tier):
             ob[0:2] = [b0 + [32] + [x for x in ob[1]]]          # two lines merged: too long
             k["obs"] = ob
             controls.append(("merged", k))
+        # the line length each emitter uses is the one of its language: a run with C_line_length 50 and
+        # F_line_length 110 on an input that has all four wrappers
+        mixed = mixed_length_traces(c)
+        traces += mixed
+        k = dict(traces[0])
+        k["want"] = traces[0]["linelen"] + 22
+        controls.append(("other-language-length", k))
         alltr = traces + [k for _n, k in controls]
         for t in alltr:
             t.pop("err", None)
+            t.setdefault("want", t["linelen"])
         verdicts, st = validate_traces("Trace_LineWrap", "Trace_LineWrap", alltr, shard=6000)
         c.add_stats(st, "trace_validation", len(traces))
         counts = {"ACCEPT": 0, "REJECT": 0, "EXCLUDED": 0}
@@ -307,6 +315,35 @@ def split_call(e):
     if out is None or allobs != e["obs"] or ind != e["indent_end"]:
         return [to_trace(e["items"], e["linelen"], e["indent"], e["indent_end"],
                          e["cont"], e["spaces"], e["obs"])]
+    return out
+
+
+def mixed_length_traces(c):
+    out = []
+    with common.scratch("c13m-") as base:
+        for name in ("classes.yaml", "tutorial.yaml"):
+            od = os.path.join(base, name)
+            os.makedirs(od)
+            tf = od + ".ndjson"
+            argv = corpus.base_args(od) + ["--option", "C_line_length=50", "--option", "F_line_length=110",
+                                           "--option", "wrap_python=true", "--option", "wrap_lua=true",
+                                           os.path.join(corpus.INPUT, name)]
+            rc, so, se = shroudrun.run(argv, probes=["linewrap"], trace=tf)
+            if rc != 0:
+                raise MachineryError("mixed line length run of %s failed rc=%s\n%s" % (name, rc, se[-1500:]))
+            seen = set()
+            for e in shroudrun.read_events(tf):
+                if e.get("e") != "write_lines" or e.get("err"):
+                    continue
+                if e["cls"] not in ("Wrapf", "Wrapc", "Wrapp", "Wrapl"):
+                    continue            # (the types file is written unwrapped)
+                want = 110 if e["cls"] == "Wrapf" else 50
+                seen.add(e["cls"])
+                for tr in split_call(e)[:40]:
+                    tr["want"] = want
+                    out.append(tr)
+            if not {"Wrapf", "Wrapc", "Wrapp", "Wrapl"} <= seen:
+                raise MachineryError("mixed line length run of %s did not use every emitter: %s" % (name, sorted(seen)))
     return out
 
 
